@@ -39,6 +39,9 @@ pub enum AOp {
     CountShared,
     /// clone the shared handle (the new handle is owned by this thread)
     CloneShared,
+    /// `increment_strong_count` through the shared handle's pointer; the reference obtained is given back by main after it
+    /// has joined every child (no release sits next to the increment in the thread that performs it)
+    IncShared,
 }
 
 #[derive(Clone, Debug, PartialEq, Eq, Hash, Serialize, Deserialize)]
@@ -124,7 +127,8 @@ fn step_obs(p: &AProg, s: &St, t: usize, flag_seen: Option<u8>) -> Option<(St, O
                 return None;
             }
             ns.g = false;
-            ns.count -= 1;
+            // (together with the references the threads obtained through `IncShared`)
+            ns.count -= 1 + p.threads.iter().flatten().filter(|o| **o == AOp::IncShared).count() as i32;
             if ns.count == 0 {
                 ns.payload_drops += 1;
             }
@@ -176,7 +180,7 @@ fn step_obs(p: &AProg, s: &St, t: usize, flag_seen: Option<u8>) -> Option<(St, O
         }
         AOp::PtrEq => res = Some(1),
         AOp::RawRound | AOp::ReadPayload => {}
-        AOp::Inc => ns.count += 1,
+        AOp::Inc | AOp::IncShared => ns.count += 1,
         AOp::Dec => ns.count -= 1,
         AOp::Forget => {
             ns.handles[t] -= 1;
@@ -550,6 +554,7 @@ fn exec(p: &AProg, t: usize, first: loom::sync::Arc<Payload>, track: loom::alloc
             AOp::Count => res = Arc::strong_count(hs.last().unwrap()) as i64,
             AOp::CountShared => res = Arc::strong_count(&**g.as_ref().unwrap()) as i64,
             AOp::CloneShared => hs.push(Arc::clone(&**g.as_ref().unwrap())),
+            AOp::IncShared => unsafe { Arc::increment_strong_count(Arc::as_ptr(&**g.as_ref().unwrap())) },
             AOp::GetMut => {
                 // a successful get_mut hands out `&mut`: write through it (the earlier owners' reads — every Drop reads the
                 // payload first — must happen-before it)
@@ -742,6 +747,11 @@ pub fn run_loom(p: &AProg, iter_cap: usize) -> ARun {
             for h in hs {
                 h.join().unwrap();
             }
+            if let Some(g) = &g {
+                for _ in 0..p2.threads.iter().flatten().filter(|o| **o == AOp::IncShared).count() {
+                    unsafe { loom::sync::Arc::decrement_strong_count(loom::sync::Arc::as_ptr(&**g)) };
+                }
+            }
             drop(g);
         });
     }));
@@ -791,6 +801,11 @@ fn core(tier: u8) -> &'static Vec<AProg> {
         // one handle reached by reference from every thread (an `Arc` field of a shared structure): inspections and clones
         // of it from different threads are dependent operations, also when it is the only handle left
         for th in [vec![vec![Drop, CountShared], vec![Drop, CloneShared, Drop]], vec![vec![Drop, CountShared], vec![Drop, CloneShared]], vec![vec![Drop, CountShared, CountShared], vec![Drop, CloneShared, Drop]], vec![vec![Drop, CloneShared, Count, Drop], vec![Drop, CountShared]], vec![vec![CountShared], vec![CloneShared, Drop]], vec![vec![Drop, CountShared], vec![Drop, CloneShared, Drop], vec![Drop, CloneShared, Drop]]] {
+            v.push(AProg { threads: th, panic_in_drop: false, detached: false, shared: true });
+        }
+        // an inspection races with an increment whose thread releases nothing afterwards (the reference it obtained is
+        // given back by main after the joins): both orders have to be explored from either side
+        for th in [vec![vec![CountShared], vec![IncShared]], vec![vec![IncShared], vec![CountShared]], vec![vec![Drop, CountShared], vec![Drop, IncShared]], vec![vec![Count], vec![IncShared], vec![IncShared]], vec![vec![GetMut], vec![Drop, IncShared]], vec![vec![IncShared, Count], vec![Count, IncShared]]] {
             v.push(AProg { threads: th, panic_in_drop: false, detached: false, shared: true });
         }
         v.push(ap(vec![vec![TrackForget], vec![TrackDrop]]));
